@@ -1,4 +1,4 @@
-\* C03 exhaustive, quick: 2 blocks allocated, every structural call with every offset/size, 2 calls deep
+\* C03 exhaustive, quick: 2 blocks of 3 octets allocated, every structural call with every offset/size, 2 calls deep
 SPECIFICATION MCSpec
 CONSTANTS
   Handles = {0, 1, 2}
@@ -10,14 +10,17 @@ CONSTANTS
   MaxLen = 5
   MaxWins = 5
   Depth = 2
-  PatSet = "c02"
+  PatSet = "q"
   InitSet = "two"
   ObsLast = FALSE
   Rand = FALSE
   Letters = {0, 1}
+  LastOps = {}
+  LastSz = {}
+  Dom = "all"
   Ops = {"alloc", "dup", "splice", "split", "copy", "merge", "append", "insert", "delete", "truncate", "resize", "prepend", "wmap", "poke", "free"}
-INVARIANT TypeOK ByteString FreshSingle WriteOnlySingle
-PROPERTY Isolation StructuralOpsDontWrite SharedNeverWritten ErrLeavesUnchanged
+INVARIANT TypeOK ByteString FreshSingle
+PROPERTY Isolation WriteOnlySingle StructuralOpsDontWrite SharedNeverWritten ErrLeavesUnchanged
 CONSTRAINT Bounded
 VIEW view
 CHECK_DEADLOCK FALSE
